@@ -2137,8 +2137,8 @@ class GitPreviewTree(PreviewTree, GitTree):
         trans_id = self._path2trans_id(path)
         if trans_id is None:
             raise NoSuchFile(path)
-        for _child_trans_id in self._all_children(trans_id):
-            entry, is_versioned = self._transform.final_entry(trans_id)
+        for child_trans_id in self._all_children(trans_id):
+            entry, is_versioned = self._transform.final_entry(child_trans_id)
             if not is_versioned:
                 continue
             if entry is not None:
